@@ -2,7 +2,7 @@
    from the case's arguments, the canonical observation the Rust harness
    printed for the implementation. Everything is numbers: arguments are lists
    of integers, observations are lists of integers. Definitions only. *)
-Require Import BV.Model.Base BV.Model.SrcB BV.Model.Length BV.Model.Tag BV.Model.Twos BV.Model.Int BV.Model.BitStr BV.Model.Oid BV.Model.Content BV.Model.Prog BV.Model.OctStr BV.Model.Encode.
+Require Import BV.Model.Base BV.Model.SrcB BV.Model.Length BV.Model.Tag BV.Model.Twos BV.Model.Int BV.Model.BitStr BV.Model.Oid BV.Model.Content BV.Model.Prog BV.Model.OctStr BV.Model.Encode BV.Model.Source.
 Local Open Scope Z_scope.
 
 Definition zs_to_ns (l : list Z) : list N := map Z.to_N l.
@@ -303,10 +303,21 @@ Definition s_c05_leaf (args : list (list Z)) : list Z :=
 Definition s_c08_fault (args : list (list Z)) : list Z :=
   if (argz 3 args <=? argz 4 args) then [2] else s_prog args.
 
+(* C07 Level A: a script of raw Source operations on a LimitedSource over a
+   contract-checking source with the given grant policy; observation = outcome,
+   values read, octets consumed and the number of requests the inner source saw *)
+Definition s_c07_grants (args : list (list Z)) : list Z :=
+  let pol := mk_policy (argn 0 args) (argn 1 args) (argb 2 args) in
+  let ops := parse_aops (length (arg 3 args)) (argb 3 args) in
+  let d := argb 4 args in
+  let '(code, log, r) := run_aops pol ops [] (mkRaw d 0%N None 0%N) in
+  if code =? 3 then [3] else code :: Z.of_N (len d - len (rdata r)) :: Z.of_N (ridx r) :: log.
+
 Definition run_stream (sid : N) (args : list (list Z)) : list Z :=
   match sid with
   | 201%N | 301%N | 502%N | 701%N | 901%N | 1001%N | 1101%N => s_prog args
   | 801%N => s_c08_fault args
+  | 702%N => s_c07_grants args
   | 401%N => s_c04_roundtrip args
   | 501%N => s_c05_leaf args
   | 601%N => s_c06_tree args
